@@ -54,6 +54,8 @@ integrator_call_fixed = Contract(
 
 def base_executor(src, reg, prop, fixed_step=False):
     ex = Executor(src, reg, prop=prop)
+    ex.feas_quantified = False           # path pruning by the quantifier-free part of the path condition only (sound, faster)
+    ex.modular_loops = True              # the main loop is verified once from requires + invariant (prefix path facts dropped)
     ex.contracts["OdeSystem.__alloc_space_steps"] = alloc_space_steps
     ex.contracts["OdeSystem.__allocate_soln_space"] = allocate_soln_space
     ex.contracts["Integrator.__call__"] = integrator_call_fixed if fixed_step else integrator_call
@@ -74,7 +76,9 @@ def verify_helpers(src, reg, prop):
 # the integrate contract
 # ----------------------------------------------------------------------------------------------------------------
 DIR = "ite(tf_ > old(self.__t)[old(self.counter)], 1, -1)"        # direction of this call (tf_ is the call's target)
-REP = ["self.counter >= 0", "len(self.__t) == self.counter + 1", "len(self.__y) == self.counter + 1", "self.__dt != 0"]
+# representation invariant required on entry: the buffers hold at least the recorded rows (after any integrate() they hold exactly
+# them -- that is the post-condition -- but the recursive call that lands on a terminal event is made with longer buffers)
+REP = ["self.counter >= 0", "len(self.__t) >= self.counter + 1", "len(self.__y) == len(self.__t)", "self.__dt != 0"]
 
 LOOP_INV = [
     "tf == tf_ and implicit_integration == False and end_int == False and events is None",
@@ -85,18 +89,21 @@ LOOP_INV = [
     "forall(lambda i: implies(0 <= i and i <= old(self.counter), self.__t[i] == old(self.__t)[i] and self.__y[i] == old(self.__y)[i]))",
     # recorded steps of this call move strictly toward the target ...
     "forall(lambda i: implies(old(self.counter) < i and i <= self.counter, " + DIR + " * (self.__t[i] - self.__t[i - 1]) > 0))",
-    # ... and never beyond it
+    # ... and never beyond it; the current time is never before the start of the call
     DIR + " * (tf_ - self.__t[self.counter]) >= 0",
+    DIR + " * (self.__t[self.counter] - old(self.__t)[old(self.counter)]) >= 0",
     "abs(tf_ - old(self.__t)[old(self.counter)]) >= eps",
     "same(self.__int_status, old(self.__int_status))",
 ]
 
 POST_COMMON = [
-    "len(self.__t) == self.counter + 1 and len(self.__y) == self.counter + 1",
+    "ite(abs(tf_ - old(self.__t)[old(self.counter)]) >= eps, len(self.__t) == self.counter + 1 and len(self.__y) == self.counter + 1, "
+    "len(self.__t) == len(old(self.__t)) and len(self.__y) == len(old(self.__y)))",
     "old(self.counter) <= self.counter",
     "forall(lambda i: implies(0 <= i and i <= old(self.counter), self.__t[i] == old(self.__t)[i] and self.__y[i] == old(self.__y)[i]))",
     "implies(abs(tf_ - old(self.__t)[old(self.counter)]) >= eps, forall(lambda i: implies(old(self.counter) < i and i <= self.counter, " + DIR + " * (self.__t[i] - self.__t[i - 1]) > 0)))",
     "implies(abs(tf_ - old(self.__t)[old(self.counter)]) >= eps, " + DIR + " * (tf_ - self.__t[self.counter]) >= 0)",
+    DIR + " * (self.__t[self.counter] - old(self.__t)[old(self.counter)]) >= 0",
 ]
 
 
